@@ -3,7 +3,6 @@
 package zzverif
 
 import (
-	"reflect"
 	"bytes"
 	"context"
 	"crypto/ecdsa"
@@ -20,6 +19,7 @@ import (
 	"net/http/httptest"
 	"os"
 	"path/filepath"
+	"reflect"
 	"runtime"
 	"sort"
 	"strings"
@@ -157,7 +157,7 @@ type WorldCfg struct {
 	NoRF       bool      `json:"noRF,omitempty"`
 	NoABMF     bool      `json:"noABMF,omitempty"`
 	StepCap    int       `json:"stepCap,omitempty"`
-	RfPort     int       `json:"rfPort,omitempty"`   // Diameter ports (real-stack runs use fresh ones per world)
+	RfPort     int       `json:"rfPort,omitempty"` // Diameter ports (real-stack runs use fresh ones per world)
 	AbmfPort   int       `json:"abmfPort,omitempty"`
 }
 
